@@ -131,9 +131,54 @@ UNQUOTE_ETAG = Spec(
 )
 
 
+def _if_range_matcher(n):
+    """`ds.IfRange()`, `ds.IfRange(<etag>)`, `ds.IfRange(date=<date>)` -> [etag, date]: the arguments
+    of the translated `IfRange.__init__(etag=None, date=None)` (its parameter names and order are
+    checked by the translator; the defaults `None` are filled in here)"""
+    import ast
+
+    if not (isinstance(n, ast.Call) and py2lean.dotted(n.func) == "ds.IfRange"):
+        return None
+    none = ast.Constant(value=None)
+    if not n.args and not n.keywords:
+        return [none, none]
+    if len(n.args) == 1 and not n.keywords:
+        return [n.args[0], none]
+    if not n.args and len(n.keywords) == 1 and n.keywords[0].arg == "date":
+        return [none, n.keywords[0].value]
+    return None
+
+
+IF_RANGE_INIT = Spec(
+    module="datastructures/range.py",
+    qualname="IfRange.__init__",
+    name="if_range_init",
+    # parameter names and order are checked against the source; both default to None
+    params=[("etag", "Option Str"), ("date", "Option Int")],
+    fields=["etag", "date"],
+    result="Option Str × Option Int",
+)
+
+PARSE_IF_RANGE_HEADER = Spec(
+    module="http.py",
+    qualname="parse_if_range_header",
+    name="parse_if_range_header",
+    # parse_date stays opaque: text -> instant (as an integer) or None
+    opaque=[("parse_date", "Pre.Str → Option Int")],
+    params=[("value", "Option Str")],
+    # the IfRange object = (etag, date)
+    result="Option Str × Option Int",
+    calls={
+        "parse_date": Fn("parse_date", [STR], Opt(INT)),
+        "unquote_etag": Fn("unquote_etag", [Opt(STR)], Tup(Opt(STR), Opt(BOOL))),
+    },
+    patterns=[(_if_range_matcher, Fn("if_range_init", [Opt(STR), Opt(INT)], Tup(Opt(STR), Opt(INT))))],
+)
+
+
 @generator("PyFns_Range")
 def gen_range():
-    return emit("Range", [IS_BYTE_RANGE_VALID, RANGE_FOR_LENGTH, RANGE_INIT, PARSE_RANGE_HEADER, UNQUOTE_ETAG], imports=["WzVerif.Gen.PyFns_Internal"])
+    return emit("Range", [IS_BYTE_RANGE_VALID, RANGE_FOR_LENGTH, RANGE_INIT, PARSE_RANGE_HEADER, UNQUOTE_ETAG, IF_RANGE_INIT, PARSE_IF_RANGE_HEADER], imports=["WzVerif.Gen.PyFns_Internal"])
 
 
 # --------------------------------------------------------------------------
@@ -299,9 +344,19 @@ UNQUOTE_HEADER_VALUE = Spec(
 )
 
 
+RANGE_TO_HEADER = Spec(
+    module="datastructures/range.py",
+    qualname="Range.to_header",
+    name="range_to_header",
+    params=[("self.units", "Str"), ("self.ranges", RANGES_TY)],
+    locals={"ranges": "List Str"},
+    result="Str",
+)
+
+
 @generator("PyFns_Http")
 def gen_http():
-    return emit("Http", [QUOTE_HEADER_VALUE, UNQUOTE_HEADER_VALUE, IS_BYTE_RANGE_VALID], imports=["WzVerif.Model.Http"])
+    return emit("Http", [QUOTE_HEADER_VALUE, UNQUOTE_HEADER_VALUE, IS_BYTE_RANGE_VALID, RANGE_TO_HEADER], imports=["WzVerif.Model.Http"])
 
 
 # --------------------------------------------------------------------------
